@@ -46,7 +46,7 @@ func (registry *AddressesRegistry) Copy() application.AddressesManager {
 	registryCopy := &AddressesRegistry{}
 	registryCopy.humansManager = registry.humansManager
 	registryCopy.registeredAddresses = copyAddressesMap(registry.registeredAddresses)
-	registryCopy.removedAddresses = registry.removedAddresses
+	registryCopy.removedAddresses = copyAddresses(registry.removedAddresses)
 	registryCopy.logger = registry.logger
 	return registryCopy
 }
@@ -66,7 +66,7 @@ func (registry *AddressesRegistry) IsRegistered(address string) bool {
 }
 
 func (registry *AddressesRegistry) RemovedAddresses() []string {
-	return registry.removedAddresses
+	return copyAddresses(registry.removedAddresses)
 }
 
 func (registry *AddressesRegistry) Synchronize(_ int64) {
@@ -98,6 +98,15 @@ func (registry *AddressesRegistry) Update(addedAddresses []string, removedAddres
 	for _, address := range addedAddresses {
 		registry.registeredAddresses[address] = true
 	}
+}
+
+func copyAddresses(addresses []string) []string {
+	if addresses == nil {
+		return nil
+	}
+	addressesCopy := make([]string, len(addresses))
+	copy(addressesCopy, addresses)
+	return addressesCopy
 }
 
 func copyAddressesMap(addresses map[string]bool) map[string]bool {
